@@ -216,6 +216,10 @@ def run_functions(case):
         "1/(z+1)": lambda z: 1 / (z + 1),
         "sqrt(z+2)": lambda z: sympy.sqrt(z + 2),
         "(z+1)**-2": lambda z: (z + 1) ** -2,
+        # number operators in an exponent
+        "pow: 2**(-z)": lambda z: 2 ** (-z),
+        "pow: x 2**(-z) x+": lambda z: x0 * 2 ** (-z) * Dagger(x0),
+        "pow: (3/2)**(-z/2) x + h.c.": lambda z: R(3, 2) ** (-z / 2) * x0 + Dagger(x0) * R(3, 2) ** (-z / 2),
         # sign-sensitive functions (the number operator of a ladder mode takes negative values)
         "abs: (z**2)**(1/2)": lambda z: sympy.sqrt(z**2),
         "abs: Abs(z - 2)": lambda z: sympy.Abs(z - 2),
@@ -450,6 +454,9 @@ def run_family(case):
         check(f"({e}) * (2 - I)", X * (2 - sympy.I), mx * (2 - 1j), dx, ux)
         check(f"(2 - I) * ({e})", (2 - sympy.I) * X, mx * (2 - 1j), dx, ux)
         check(f"({e}) / 3", X / 3, mx / 3, dx, ux)
+        check(f"({e}) * 2 (Python int)", X * 2, mx * 2, dx, ux)
+        check(f"({e}) * 0.5 (Python float)", X * 0.5, mx * 0.5, dx, ux)
+        check(f"2 * ({e}) (Python int)", 2 * X, mx * 2, dx, ux)
         for p in (2, 3):
             check(f"({e})**{p}", X**p, np.linalg.matrix_power(mx, p), [d * p for d in dx], [u * p for u in ux])
         back = X.as_expr()
